@@ -128,6 +128,20 @@ def check_compute_ranges(ctx: Ctx, f: FunctionInfo, ranges_var: Optional[ast.Nam
         ctx.ob("C15.R2p", f, f.node, "compute_ranges(target_size)", None, "no target_size parameter")
         return
     body = f.node.body
+    # ranges must be a function of this call's arguments: a memo on the step object is stale when the size changes
+    memo = [a for a in walk_local(f.node) if isinstance(a, ast.Assign) and any(is_self_attr(t) for t in a.targets)]
+    if memo and ranges_var is None:
+        keyed = set()
+        for a in memo:
+            for t, pol in guards(a, stop=f.node):
+                keyed |= {x.id for x in ast.walk(t) if isinstance(x, ast.Name)}
+        ok = k in keyed and "population" in keyed
+        ctx.ob("C15.R2p", f, memo[0], "slice boundaries are computed from this call's target_size and population", ok,
+               "" if ok else f"'{norm(memo[0])[:60]}' caches the ranges on the step object and recomputes them only when "
+                             f"{sorted(keyed - {'self'}) or 'never'} change: a later call with another target size (a step shared by two "
+                             f"searches, an adaptive population size) is served the old boundaries and yields the old number of individuals")
+        if not ok:
+            return
     rets = [r for r in walk_local(f.node) if isinstance(r, ast.Return) and r.value is not None]
     if ranges_var is not None:
         rets = [ast.copy_location(ast.Return(value=ranges_var), ranges_var)]
